@@ -11,6 +11,7 @@ use alpenglow::types::{Slice, SliceIndex, Slot};
 use alpenglow::all2all::TrivialAll2All;
 use alpenglow::consensus::{Alpenglow, ConsensusMessage, EpochInfo, ValidatorEpochInfo};
 use alpenglow::crypto::aggsig;
+use alpenglow::crypto::merkle::SliceMerkleTree;
 use alpenglow::disseminator::TrivialDisseminator;
 use alpenglow::network::{UdpNetwork, localhost_ip_sockaddr};
 use alpenglow::repair::{RepairRequest, RepairResponse};
@@ -111,7 +112,11 @@ struct Set {
     #[allow(dead_code)]
     shreds: Vec<ValidatedShred>,
     wires: Vec<Wire>,
-    commitment: SliceCommitment,
+    /// `None`: `try_new` (no cache) refused a shred of this validly signed set (only possible for `mkx` sets), so
+    /// no `SliceCommitment` value can be obtained through the public API
+    commitment: Option<SliceCommitment>,
+    /// the commitment bytes as laid out by `SliceCommitment::new`: slot | slice index | last flag | root
+    cbytes: Vec<u8>,
 }
 
 struct Ctx {
@@ -148,7 +153,62 @@ impl Ctx {
         self.rec.step(&format!("mk {set} {key} {slot} {idx} {} {hp} {ps} {hs} {len} {a} {b}", last as u8), "ok");
         let wires = shreds.iter().map(|s| Wire::of(s.as_shred())).collect();
         let commitment = shreds[0].commitment();
-        self.sets.push(Set { key, shreds, wires, commitment });
+        let cbytes = commitment.as_ref().to_vec();
+        self.sets.push(Set { key, shreds, wires, commitment: Some(commitment), cbytes });
+        set
+    }
+
+    /// What a Byzantine leader holding key `key` can sign for a slice besides the regular shredder's output: a
+    /// commitment to a Merkle tree of *another shape* - the first `keep` of the slice's 64 shards followed by `extra`
+    /// further leaves (`elen` generated bytes each). 65..=128 leaves give 7-hash paths, more give 8, `keep` <= 32
+    /// without extras gives paths shorter than 6 (a single leaf: the empty path); the set has the shreds 0..keep.
+    /// Built with the crate's public Merkle tree and `SecretKey::sign_bytes`; the wire images are those of the
+    /// regular shreds with signature and path replaced.
+    fn mkx(&mut self, key: usize, slot: u64, idx: usize, last: bool, parent: Option<(u64, u64)>, len: usize, a: u64, b: u64, keep: usize, extra: usize, elen: usize) -> usize {
+        assert!(1 <= keep && keep <= 64 && (keep, extra) != (64, 0));
+        let slice_index: SliceIndex = wincode::deserialize(&(idx as u64).to_le_bytes()).expect("slice index");
+        let par = parent.map(|(ps, hs)| {
+            let hb: Vec<u8> = (0..32u64).map(|j| ((hs + 7 * j) % 256) as u8).collect();
+            (Slot::new(ps), wincode::deserialize(&hb).expect("hash"))
+        });
+        let slice = Slice { slot: Slot::new(slot), slice_index, is_last: last, parent: par, data: gen_data(len, a, b) };
+        let base = RegularShredder::default().shred(&slice, &self.sks[key]).expect("fits").to_vec();
+        let base: Vec<Wire> = base.iter().map(|s| Wire::of(s.as_shred())).collect();
+        let mut leaves: Vec<Vec<u8>> = base.iter().take(keep).map(|w| w.data.clone()).collect();
+        for j in 0..extra as u64 {
+            leaves.push(gen_data(elen, a + j + 1, b));
+        }
+        let tree = SliceMerkleTree::new(&leaves);
+        let root = tree.get_root();
+        let mut cbytes = Vec::new();
+        cbytes.extend_from_slice(&slot.to_le_bytes());
+        cbytes.extend_from_slice(&(idx as u64).to_le_bytes());
+        cbytes.push(last as u8);
+        cbytes.extend_from_slice(root.as_ref());
+        let sig = self.sks[key].sign_bytes(&cbytes);
+        let sig: Vec<u8> = wincode::serialize(&sig).expect("serialize signature");
+        assert_eq!(sig.len(), 64);
+        let wires: Vec<Wire> = (0..keep)
+            .map(|i| {
+                let mut w = base[i].clone();
+                w.sig = sig.clone();
+                let proof = tree.create_proof(i);
+                w.path = proof.as_ref().iter().map(|h| h.as_ref().try_into().expect("32 bytes")).collect();
+                w
+            })
+            .collect();
+        let set = self.sets.len();
+        let (hp, ps, hs) = parent.map(|(p, h)| (1, p, h)).unwrap_or((0, 0, 0));
+        self.rec.step(&format!("mkx {set} {key} {slot} {idx} {} {hp} {ps} {hs} {len} {a} {b} {keep} {extra} {elen}", last as u8), "ok");
+        // the `SliceCommitment` value (needed to present this commitment as the cached one) only comes out of a
+        // successful validation
+        let pk = self.pks[key];
+        let commitment = wires[0].decode().and_then(|sh| catch(|| ValidatedShred::try_new(sh, None, &pk)).ok()).and_then(|r| r.ok()).map(|v| v.commitment());
+        if let Some(c) = &commitment {
+            self.rec.count(&format!("mkx:commitment-bytes-as-documented={}", c.as_ref() == &cbytes[..]));
+        }
+        self.rec.count(&format!("mkx:path-len={}", wires[0].path.len()));
+        self.sets.push(Set { key, shreds: vec![], wires, commitment, cbytes });
         set
     }
 
@@ -244,7 +304,7 @@ impl Ctx {
         };
         let _ = content_changed;
         let sig_valid = w.sig == self.sets[g].wires[0].sig && pk == self.sets[g].key;
-        let cache_is_own = cache.map(|c| self.sets[c].commitment == self.sets[g].commitment);
+        let cache_is_own = cache.map(|c| self.sets[c].cbytes == self.sets[g].cbytes);
         match cache_is_own {
             Some(true) => Verdict::Ok,
             Some(false) => {
@@ -266,7 +326,15 @@ impl Ctx {
 
     fn val(&mut self, set: usize, i: usize, cache: Option<usize>, pk: usize, muts: &[Mut], rng: &mut Rng) {
         let (w, cc, sc) = self.mutate(set, i, muts, rng);
-        let cached = cache.map(|c| self.sets[c].commitment);
+        let cached = match cache {
+            None => None,
+            Some(c) => match self.sets[c].commitment {
+                Some(cm) => Some(cm),
+                // no `SliceCommitment` value for that set (its shreds were refused; `mkx` sets only, reported by the
+                // uncached validation of the set): the op cannot be executed
+                None => return,
+            },
+        };
         let (got, _) = self.validate(&w, cached.as_ref(), pk);
         let ms = muts.iter().map(Mut::op).collect::<Vec<_>>().join(" ");
         let op = format!("val {set} {i} {} {pk} {ms}", cache.map(|c| c.to_string()).unwrap_or("-".into())).trim_end().to_string();
@@ -288,6 +356,23 @@ impl Ctx {
             _ => "wrong-rejection-kind",
         };
         self.rec.oracle(got == exp, key, || format!("{op}: try_new gave {got:?}, the property demands {exp:?} (set {set} signed by key {}, slot {} slice {})", self.sets[set].key, self.sets[set].wires[0].slot, self.sets[set].wires[0].slice_index));
+    }
+
+    /// `val` without the property oracle: only compared with the model and counted under `what:<verdict>`
+    fn val_observe(&mut self, what: &str, set: usize, i: usize, pk: usize, muts: &[Mut], rng: &mut Rng) -> Verdict {
+        let (w, _, _) = self.mutate(set, i, muts, rng);
+        let (got, _) = self.validate(&w, None, pk);
+        let ms = muts.iter().map(Mut::op).collect::<Vec<_>>().join(" ");
+        let out = match got {
+            Verdict::Ok => "ok",
+            Verdict::InvalidSignature => "InvalidSignature",
+            Verdict::Equivocation => "Equivocation",
+            Verdict::Undecodable => "undecodable",
+        };
+        self.rec.step(format!("val {set} {i} - {pk} {ms}").trim_end(), out);
+        self.rec.count(&format!("{what}:{out}"));
+        self.class = fnv(self.class, out);
+        got
     }
 
     fn bs_new(&mut self) {
@@ -347,6 +432,26 @@ impl Ctx {
     }
 }
 
+/// shape of the tree a Byzantine leader commits to instead of the regular 64-leaf one: (kept shards, extra leaves,
+/// bytes per extra leaf); never (64, 0) = the regular tree
+fn alt_shape(rng: &mut Rng, k: u64) -> (usize, usize, usize) {
+    let (keep, extra) = match k % 6 {
+        0 => (64, 1),                                            // 65 leaves: 7-hash paths
+        1 => (64, 1 + rng.below(64) as usize),                   // 65..=128 leaves: 7
+        2 => (64, 65 + rng.below(40) as usize),                  // > 128 leaves: 8
+        3 => {
+            // <= 32 leaves, every height 0..=5 equally often (height 0: one leaf, the empty path)
+            let h = rng.below(6);
+            let lo = if h == 0 { 1 } else { (1u64 << (h - 1)) + 1 };
+            ((lo + rng.below((1 << h) - lo + 1)) as usize, 0)
+        }
+        4 => (33 + rng.below(31) as usize, rng.below(3) as usize), // mostly 6 again (another root of the same height)
+        _ => (1 + rng.below(64) as usize, rng.below(70) as usize),
+    };
+    let extra = if (keep, extra) == (64, 0) { 1 } else { extra };
+    (keep, extra, if rng.chance(1, 5) { 0 } else { 2 * rng.below(100) as usize })
+}
+
 fn random_mut(rng: &mut Rng, cx: &Ctx, set: usize, i: usize, other: usize) -> Mut {
     let w = &cx.sets[set].wires[i];
     match rng.below(18) {
@@ -404,7 +509,8 @@ fn main() {
         // set 0: the slice under test (leader key 1); set 1: a conflicting slice for the same slot and index,
         // same leader; set 2: another slot's slice of the same leader; set 3: same slot/index signed by key 2
         let parent = if rng.chance(1, 2) { Some((slot - 1, rng.below(256))) } else { None };
-        cx.mk(1, slot, idx, rng.chance(1, 2), parent, len, rng.below(256), rng.below(256));
+        let (last0, a0, b0) = (rng.chance(1, 2), rng.below(256), rng.below(256));
+        cx.mk(1, slot, idx, last0, parent, len, a0, b0);
         cx.mk(1, slot, idx, rng.chance(1, 2), None, len + 1 + rng.below(5) as usize, rng.below(256), rng.below(256));
         cx.mk(1, slot + 1 + rng.below(4), rng.below(1000) as usize, false, None, len, rng.below(256), rng.below(256));
         cx.mk(2, slot, idx, false, None, len, rng.below(256), rng.below(256));
@@ -451,6 +557,48 @@ fn main() {
         // same slot/index signed by another key: not equivocation of leader 1
         cx.val(3, i, Some(0), 1, &[], &mut rng);
         cx.val(3, i, Some(0), 2, &[], &mut rng);
+        // set 4: the same leader signs, for the same slot and slice index, a commitment to a tree of another shape
+        // (other height: paths of 0..=5, 7 or 8 hashes; or 64 leaves again but other content); every second time over
+        // the very shards of set 0. Each of its shreds is valid on its own and a conflicting commitment against 0 / 1.
+        let (keep, extra, elen) = alt_shape(&mut rng, c as u64);
+        let x = if c % 2 == 0 { cx.mkx(1, slot, idx, last0, parent, len, a0, b0, keep, extra, elen) } else { cx.mkx(1, slot, idx, rng.chance(1, 2), None, rng.below(300) as usize, rng.below(256), rng.below(256), keep, extra, elen) };
+        let plen = cx.sets[x].wires[0].path.len();
+        let j = rng.below(keep as u64) as usize;
+        cx.val(x, j, None, 1, &[], &mut rng);
+        cx.val(x, j, Some(0), 1, &[], &mut rng);
+        cx.val(x, rng.below(keep as u64) as usize, Some(1), 1, &[], &mut rng);
+        cx.val(0, i, Some(x), 1, &[], &mut rng);
+        cx.val(x, keep - 1, Some(x), 1, &[], &mut rng);
+        cx.val(x, j, Some(0), 2, &[], &mut rng); // not signed by key 2: no equivocation of that key
+        cx.val(x, j, None, 2, &[], &mut rng);
+        cx.val(x, j, Some(3), 1, &[], &mut rng);
+        for _ in 0..4 {
+            let j = rng.below(keep as u64) as usize;
+            let mut muts: Vec<Mut> = Vec::new();
+            for _ in 0..(1 + rng.below(2)) {
+                let m = match rng.below(4) {
+                    // the hashes beyond the sixth are as binding as the first six
+                    0 if plen > 0 => Mut::PeJunk(rng.below(plen as u64) as usize, rng.below(4) as usize),
+                    1 if plen > 0 => Mut::Plen(rng.below(plen as u64) as usize),
+                    _ => {
+                        let other = 1 + rng.below(3) as usize;
+                        random_mut(&mut rng, &cx, x, j, other)
+                    }
+                };
+                // `try_new` derives the root without asking that the path consumes the whole index: under a signed tree
+                // of height h < 6 the positions j + k * 2^h are aliases of j (observed below, not demanded here)
+                let alias = matches!(m, Mut::Sidx(n) if n < 64 && plen < 6 && (n as usize) % (1 << plen) == j % (1 << plen));
+                if !alias && !muts.iter().any(|y| y.field() == m.field()) {
+                    muts.push(m);
+                }
+            }
+            let cache = match rng.below(3) { 0 => Some(0), 1 => Some(x), _ => None };
+            cx.val(x, j, cache, 1, &muts, &mut rng);
+        }
+        if plen < 6 {
+            let n = (j + (1 << plen) * (1 + rng.below((64 >> plen) as u64 - 1) as usize)) % 64;
+            if n != j { cx.val_observe("short-tree-index-alias", x, j, 1, &[Mut::Sidx(n as u64)], &mut rng); }
+        }
         let class = cx.class;
         cx.rec.end_case(class, true);
     }
@@ -465,13 +613,24 @@ fn main() {
         let nslices = 2 + rng.below(4) as usize;
         let has_last = rng.chance(2, 3);
         // honest block: slices 1..=nslices (index 0 is left out: no block reconstruction in this check), last flag on the last
+        let mut first = (0usize, 0u64, 0u64);
         for j in 0..nslices {
             let last = has_last && j + 1 == nslices;
-            cx.mk(1, slot, 1 + j, last, None, rng.below(200) as usize, rng.below(256), rng.below(256));
+            let (len, a, b) = (rng.below(200) as usize, rng.below(256), rng.below(256));
+            if j == 0 { first = (len, a, b); }
+            cx.mk(1, slot, 1 + j, last, None, len, a, b);
         }
         // conflicting material signed by the same leader: other content for slice 1; a second "last" slice;
         // a slice beyond the last one
-        let conflict_content = cx.mk(1, slot, 1, false, None, 201 + rng.below(50) as usize, rng.below(256), rng.below(256));
+        // every fourth case the second commitment for slice 1 is one to a Merkle tree of another shape / height
+        // (`mkx`), alternately over other data and over the very shards of the honest slice 1
+        let tall_conflict = c % 4 == 3;
+        let conflict_content = if tall_conflict {
+            let (keep, extra, elen) = alt_shape(&mut rng, (c / 4) as u64);
+            if (c / 4) % 2 == 0 { cx.mkx(1, slot, 1, false, None, first.0, first.1, first.2, keep, extra, elen) } else { cx.mkx(1, slot, 1, false, None, 201 + rng.below(50) as usize, rng.below(256), rng.below(256), keep, extra, elen) }
+        } else {
+            cx.mk(1, slot, 1, false, None, 201 + rng.below(50) as usize, rng.below(256), rng.below(256))
+        };
         let conflict_last = cx.mk(1, slot, nslices + 1, true, None, rng.below(200) as usize, rng.below(256), rng.below(256));
         let beyond = cx.mk(1, slot, nslices + 2, false, None, rng.below(200) as usize, rng.below(256), rng.below(256));
         cx.bs_new();
@@ -494,7 +653,7 @@ fn main() {
             cx.rec.oracle(!flagged_in_honest, "honest-leader-flagged", || format!("gate case {c}: {ops} validated shreds of one consistent block (slot {slot}, {nslices} slices) made the blockstore reject a shred or flag the leader"));
         }
         // conflict phase, both arrival orders (conflict first when !honest_first)
-        let which = rng.below(3);
+        let which = if tall_conflict { 0 } else { rng.below(3) };
         let (cs, label) = match which {
             0 => (conflict_content, "two contents for one slice"),
             1 if has_last => (conflict_last, "two last slices"),
@@ -502,12 +661,20 @@ fn main() {
             _ => (conflict_content, "two contents for one slice"),
         };
         let use_cache = rng.chance(1, 2);
-        let o1 = cx.bs_add(cs, rng.below(64) as usize, use_cache, 1, &[], &mut rng);
-        let mut reported = !o1.starts_with("pass");
-        if !honest_first || !reported {
-            for &(s, i) in feed.iter().take(40) {
+        let ncs = cx.sets[cs].wires.len() as u64;
+        let o1 = cx.bs_add(cs, rng.below(ncs) as usize, use_cache, 1, &[], &mut rng);
+        // reported = answered `Equivocation` by `try_new` or by the blockstore (a refusal as `InvalidSignature` of a
+        // validly signed shred is not a report)
+        let mut reported = o1.contains("Equivocation");
+        if !honest_first || o1.starts_with("pass") {
+            // the other side of the conflict: 40 shreds of the honest block, a shred of its slice 1 (set 0) among them
+            let mut rest: Vec<(usize, usize)> = feed.iter().take(40).cloned().collect();
+            if !rest.iter().any(|&(s, _)| s == 0) {
+                rest.push(*feed.iter().find(|&&(s, _)| s == 0).expect("every slice is in the feed"));
+            }
+            for &(s, i) in &rest {
                 let out = cx.bs_add(s, i, use_cache, 1, &[], &mut rng);
-                reported |= !out.starts_with("pass");
+                reported |= out.contains("Equivocation");
             }
         }
         // after the conflict every further dissemination shred of the slot is refused
@@ -518,7 +685,7 @@ fn main() {
         // the property speaks of two commitments for the *same* slot and slice index; conflicting last-slice markers
         // and slices beyond the last one are compared with the model only (their order dependence is C13 / D2)
         let same_index_conflict = cs == conflict_content;
-        cx.rec.oracle(reported || !same_index_conflict, "conflicting-commitment-not-reported", || format!("gate case {c} ({label}, cache={use_cache}): two conflicting validly signed slices for slot {slot} were both accepted silently (first conflict verdict `{o1}`, later `{o3}`, flagged={flagged})"));
+        cx.rec.oracle(reported || !same_index_conflict, "conflicting-commitment-not-reported", || format!("gate case {c} ({label}, cache={use_cache}, second commitment with {}-hash paths): two conflicting validly signed slices for slot {slot} were both accepted silently (first conflict verdict `{o1}`, later `{o3}`, flagged={flagged})", cx.sets[cs].wires[0].path.len()));
         let class = cx.class;
         cx.rec.end_case(class, true);
     }
@@ -538,7 +705,12 @@ fn main() {
         }
         let target = rng.below(nslices as u64) as usize;
         let tparent = if target == 0 { Some((slot - 1, 201 + rng.below(50))) } else { None };
-        let conflict = cx.mk(1, slot, target, target + 1 == nslices, tparent, 8, 0, 0 + (target != 0) as u64);
+        let conflict = if c % 3 == 2 {
+            let (keep, extra, elen) = alt_shape(&mut rng, (c / 3) as u64);
+            cx.mkx(1, slot, target, target + 1 == nslices, tparent, 8, 0, 0 + (target != 0) as u64, keep, extra, elen)
+        } else {
+            cx.mk(1, slot, target, target + 1 == nslices, tparent, 8, 0, 0 + (target != 0) as u64)
+        };
         cx.bs_new();
         let mut feed: Vec<(usize, usize)> = Vec::new();
         for j in 0..nslices {
@@ -556,7 +728,8 @@ fn main() {
         let complete = { let (bs, _) = cx.bs.as_ref().expect("bs"); bs.disseminated_block_hash(Slot::new(slot)).is_some() };
         cx.rec.count(&format!("gate-complete:block-reconstructed={complete}"));
         // the conflicting slice, straight to the blockstore (no cached commitment handed to try_new)
-        let o1 = cx.bs_add(conflict, rng.below(64) as usize, false, 1, &[], &mut rng);
+        let ncs = cx.sets[conflict].wires.len() as u64;
+        let o1 = cx.bs_add(conflict, rng.below(ncs) as usize, false, 1, &[], &mut rng);
         let o2 = cx.bs_add(0, 63, false, 1, &[], &mut rng);
         let flagged = cx.flagged;
         cx.rec.oracle(!o1.starts_with("pass") && flagged, "conflicting-commitment-not-reported", || format!("gate-complete case {c}: after slot {slot} was reconstructed ({nslices} slices, complete={complete}) a different validly signed slice {target} of the same leader was answered `{o1}` (next shred `{o2}`), InvalidBlock emitted: {flagged}"));
@@ -615,7 +788,13 @@ fn main() {
         let other_key = (1..4).find(|&k| k != leader).expect("another key");
         let s1 = cx.mk(leader, slot, 1, false, None, rng.below(300) as usize, rng.below(256), rng.below(256));
         let s2 = cx.mk(leader, slot, 2, false, None, rng.below(300) as usize, rng.below(256), rng.below(256));
-        let conflict = cx.mk(leader, slot, 1, false, None, 301 + rng.below(50) as usize, rng.below(256), rng.below(256));
+        // every second case the conflicting commitment is one to a tree of another shape / height
+        let conflict = if c % 2 == 1 {
+            let (keep, extra, elen) = alt_shape(&mut rng, (c / 2) as u64);
+            cx.mkx(leader, slot, 1, false, None, 301 + rng.below(50) as usize, rng.below(256), rng.below(256), keep, extra, elen)
+        } else {
+            cx.mk(leader, slot, 1, false, None, 301 + rng.below(50) as usize, rng.below(256), rng.below(256))
+        };
         let foreign = cx.mk(other_key, slot, 1, false, None, 400 + rng.below(50) as usize, rng.below(256), rng.below(256));
         cx.rec.step("node_new", "ok");
         let bs = node.verif_blockstore();
@@ -659,11 +838,12 @@ fn main() {
         let p1 = probe(&mut cx, s2, 30);
         cx.rec.oracle(p1 == "pass", "honest-leader-flagged", || format!("node case {c}: shreds of one consistent block and shreds with invalid signatures made the node flag the leader of slot {slot} (probe `{p1}`)"));
         // the conflict: a second validly signed commitment for slice 1
-        let first_conflict_shred = rng.below(64) as usize;
+        let first_conflict_shred = rng.below(cx.sets[conflict].wires.len() as u64) as usize;
+        let cplen = cx.sets[conflict].wires[0].path.len();
         feed(&mut cx, conflict, first_conflict_shred, &[], &mut rng);
         let p2 = probe(&mut cx, s2, 31);
         cx.rec.oracle(p2 == "InvalidShred", "conflicting-commitment-not-reported", || {
-            format!("node: Alpenglow::handle_disseminator_shred received shreds of slice 1 of slot {slot} from its leader (validator {leader}) and then shred {first_conflict_shred} of a different, validly signed slice 1 of the same slot; the leader was not flagged (a further shred of the slot is answered `{p2}` by the blockstore, no InvalidBlock)")
+            format!("node: Alpenglow::handle_disseminator_shred received shreds of slice 1 of slot {slot} from its leader (validator {leader}) and then shred {first_conflict_shred} of a different, validly signed slice 1 of the same slot ({cplen}-hash Merkle paths); the leader was not flagged (a further shred of the slot is answered `{p2}` by the blockstore, no InvalidBlock)")
         });
         let class = cx.class;
         cx.rec.end_case(class, true);
@@ -690,7 +870,12 @@ fn main() {
         }
         let target = rng.below(nslices as u64) as usize;
         let tparent = if target == 0 { Some((slot - 1, 201 + rng.below(50))) } else { None };
-        let conflict = cx.mk(leader, slot, target, target + 1 == nslices, tparent, 8, 0, (target != 0) as u64);
+        let conflict = if c % 3 == 1 {
+            let (keep, extra, elen) = alt_shape(&mut rng, (c / 3) as u64);
+            cx.mkx(leader, slot, target, target + 1 == nslices, tparent, 8, 0, (target != 0) as u64, keep, extra, elen)
+        } else {
+            cx.mk(leader, slot, target, target + 1 == nslices, tparent, 8, 0, (target != 0) as u64)
+        };
         cx.rec.step("node_new", "ok");
         let bs = node.verif_blockstore();
         for j in 0..nslices {
@@ -704,8 +889,8 @@ fn main() {
         }
         let complete = cx.rt.block_on(async { bs.read().await.disseminated_block_hash(Slot::new(slot)).is_some() });
         cx.rec.count(&format!("node-complete:block-reconstructed={complete}"));
-        let first_conflict_shred = rng.below(64) as usize;
-        let sh = cx.sets[conflict].shreds[first_conflict_shred].as_shred().clone();
+        let first_conflict_shred = rng.below(cx.sets[conflict].wires.len() as u64) as usize;
+        let sh = cx.sets[conflict].wires[first_conflict_shred].decode().expect("decodable");
         let r = catch(|| cx.rt.block_on(node.verif_handle_disseminator_shred(sh)));
         cx.rec.step(&format!("node {conflict} {first_conflict_shred} {leader}"), if matches!(r, Ok(Ok(()))) { "done" } else { "panic" });
         // flagged? a further genuine shred is then refused by the blockstore
